@@ -64,3 +64,26 @@ def ref_irrigation(method, in_season, D, T, stage, dap, eff, max_irr, smt, inter
     if applied_so_far + want > max_season:
         want = max(0.0, max_season - applied_so_far)
     return want
+
+
+# ------------------------------------------------------------------------------------------------
+# root-zone storage (C13): plain sums over the compartments covered by the root zone
+# ------------------------------------------------------------------------------------------------
+def ref_root_zone(prof, zroot, zmin, th):
+    """(depletion below field capacity [mm], total available water [mm], water above field capacity [mm])
+    of the root zone max(zroot, zmin); prof is a dict of profile arrays."""
+    depth = round(max(float(zroot), float(zmin)), 2)
+    dzsum, dz = prof["dzsum"], prof["dz"]
+    w_act = w_fc = w_wp = 0.0
+    for i in range(len(dz)):
+        top = dzsum[i] - dz[i]
+        if top >= depth - 1e-12:
+            break
+        frac = 1.0 if dzsum[i] <= depth else 1.0 - (dzsum[i] - depth) / dz[i]
+        w_act += frac * 1000.0 * th[i] * dz[i]
+        w_fc += frac * 1000.0 * prof["th_fc"][i] * dz[i]
+        w_wp += frac * 1000.0 * prof["th_wp"][i] * dz[i]
+    taw = max(w_fc - w_wp, 0.0)
+    dr = min(w_fc - max(w_act, 0.0), taw)
+    above = max(0.0, w_act - w_fc)
+    return dr, taw, above
